@@ -155,6 +155,20 @@ pub fn check_codec(n: &N, obs: &mut Obs) -> Result<(), String> {
     {
         return Err(format!("byte-level casts of enc({n:?}) disagree with the Number views"));
     }
+    // the to_* casts of a number document are its views where a view exists
+    let (ti, tu, tf) = (nopanic("to_i64", || jsonb::to_i64(&doc).ok())?, nopanic("to_u64", || jsonb::to_u64(&doc).ok())?, nopanic("to_f64", || jsonb::to_f64(&doc).ok())?);
+    if lib.as_i64().is_some() && ti != lib.as_i64() || lib.as_u64().is_some() && tu != lib.as_u64() {
+        return Err(format!("to_i64 / to_u64 of enc({n:?}) = {ti:?} / {tu:?}, the views are {:?} / {:?}", lib.as_i64(), lib.as_u64()));
+    }
+    if tf.map(|f| N::F(f).enc_vec()) != lib.as_f64().map(|f| N::F(f).enc_vec()) {
+        return Err(format!("to_f64 of enc({n:?}) = {tf:?}, the f64 view is {:?}", lib.as_f64()));
+    }
+    if let (Some(i), None) = (ti, lib.as_i64()) {
+        return Err(format!("to_i64 of enc({n:?}) = {i} although the number has no exact i64 view"));
+    }
+    if let (Some(u), None) = (tu, lib.as_u64()) {
+        return Err(format!("to_u64 of enc({n:?}) = {u} although the number has no exact u64 view"));
+    }
     Ok(())
 }
 
@@ -344,6 +358,27 @@ pub fn check_order(t: &(N, N, N), obs: &mut Obs) -> Result<(), String> {
         }
         if lx.partial_cmp(ly) != Some(want) {
             return Err(format!("{x:?}.partial_cmp({y:?}) disagrees with cmp"));
+        }
+        // every borrowed / owned overload of == and of the ordering operators
+        {
+            let (ox, oy) = (lx.clone(), ly.clone());
+            let e = want == Ordering::Equal;
+            let eqs = [ox == oy, ox == ly, lx == oy, !(ox != oy), !(ox != ly), !(lx != oy)];
+            if eqs.iter().any(|v| *v != e) {
+                return Err(format!("== / != overloads of {x:?} and {y:?} give {eqs:?}, exact comparison is {want:?}"));
+            }
+            let pcs = [ox.partial_cmp(&oy), ox.partial_cmp(&ly), lx.partial_cmp(&oy)];
+            if pcs.iter().any(|v| *v != Some(want)) {
+                return Err(format!("partial_cmp overloads (owned/owned, owned/&, &/owned) of {x:?} and {y:?} give {pcs:?}, exact value order is {want:?}"));
+            }
+            let lt = want == Ordering::Less;
+            let ops = [ox < oy, ox < ly, lx < oy, !(ox >= oy), !(ox >= ly), !(lx >= oy)];
+            if ops.iter().any(|v| *v != lt) {
+                return Err(format!("< / >= overloads of {x:?} and {y:?} give {ops:?}, exact value order is {want:?}"));
+            }
+            if std::cmp::max(ox.clone(), oy.clone()).cmp(&ox) == Ordering::Less || std::cmp::min(ox.clone(), oy.clone()).cmp(&ox) == Ordering::Greater {
+                return Err(format!("max / min of {x:?} and {y:?} are not bounds of the first"));
+            }
         }
         if x.is_float() != y.is_float() {
             let (int_side, float_side) = if x.is_float() { (y, x) } else { (x, y) };
